@@ -342,10 +342,26 @@ def gen_case(rng, family, kind, shape_name, shape):
             case["objective"] = gen_objective_op(rng, n, ["Z"], diagonal=True)
         else:
             case["objective"] = {"table": [str(Fraction(rng.randint(-16, 16), rng.choice([1, 2, 4]))) for _ in range(2 ** n)]}
+        if n_callers > 1 and rng.random() < 0.75:
+            # different evaluators share the one wrapped sampler: own shots (every caller a different power of two), kind, alpha
+            pool = [64, 256, 1024, 4096] if family == "classical" or case["sampler_mode"] == "fractional" else [1 << 14, 1 << 15, 1 << 16, 1 << 17]
+            for cl, sh in zip(callers, rng.sample(pool, n_callers)):
+                k = rng.choice(["opsampler", "bits"])
+                c = {"kind": k, "shots": sh, "alpha": rng.choice(["1", "1/2", "1/2", "1/4"])}
+                c["objective"] = gen_objective_op(rng, n, ["Z"], diagonal=True) if k == "opsampler" else {"table": [str(Fraction(rng.randint(-16, 16), rng.choice([1, 2, 4]))) for _ in range(2 ** n)]}
+                cl["cfg"] = c
     return case
 
 
 # ----------------------------------------------------------------------------------------------- implementation run
+def cfg(case, ci):
+    """Evaluator configuration of caller ci: the case's kind/objective/alpha/shots unless the caller overrides them
+    (callers of one batching sampler may be different evaluators: own kind, objective, alpha and sampler_shots)."""
+    d = {k: case.get(k) for k in ("kind", "objective", "alpha", "shots")}
+    d.update(case["callers"][ci].get("cfg", {}))
+    return d
+
+
 def angle_values(case, params):
     return [k * PI for k in params] if case["family"] == "classical" else list(params)
 
@@ -357,8 +373,11 @@ def run_impl(case, timeout=90.0):
     from queasars.circuit_evaluation.bitstring_evaluation import BitstringEvaluator
     from queasars.circuit_evaluation.circuit_evaluation import BitstringCircuitEvaluator, OperatorCircuitEvaluator, OperatorSamplerCircuitEvaluator
 
+    from queasars.circuit_evaluation import circuit_evaluation as ce_module
+
     n, npar, kind = case["n"], case["n_params"], case["kind"]
     batches = []
+    pub_shots = []   # (caller, shots of the coerced pub as the raw sampler received it)
     lock = threading.Lock()
 
     def observer(pubs):
@@ -368,8 +387,28 @@ def run_impl(case, timeout=90.0):
             c = (p.circuit.metadata or {}).get("caller")
             row.append((c, seen.get(c, 0)))
             seen[c] = seen.get(c, 0) + 1
+            if hasattr(p, "shots"):
+                pub_shots.append((c, p.shots))
         with lock:
             batches.append(row)
+
+    # the quasi-distributions each evaluator aggregates: measure_quasi_distributions is looked up in the module's
+    # namespace at call time and runs in the caller's thread; record what it returns per thread
+    quasi_sums = {}
+    if not hasattr(ce_module.measure_quasi_distributions, "_verif_original"):
+        original = ce_module.measure_quasi_distributions
+
+        def recording(*args, **kwargs):
+            out = original(*args, **kwargs)
+            sink = getattr(recording, "sink", None)
+            if sink is not None:
+                sink.setdefault(threading.get_ident(), []).extend(float(sum(Fraction(v) for v in d.values())) for d in out)
+            return out
+
+        recording._verif_original = original
+        ce_module.measure_quasi_distributions = recording
+    ce_module.measure_quasi_distributions.sink = quasi_sums
+    thread_of = {}
 
     sampler = kind != "est"
     raw = exactprims.ExactSampler(mode=case["sampler_mode"], observer=observer) if sampler else exactprims.ExactEstimator(observer=observer)
@@ -378,13 +417,14 @@ def run_impl(case, timeout=90.0):
 
     def make_evaluator(ci):
         init = build_circuit(n, case["init"], 0, name="init", metadata={"caller": ci}) if case["init"] is not None else None
-        if kind == "est":
-            return OperatorCircuitEvaluator(prim, 0.0, build_operator(n, case["objective"]), initial_state_circuit=init)
-        alpha = float(Fraction(case["alpha"]))
-        if kind == "opsampler":
-            return OperatorSamplerCircuitEvaluator(prim, case["shots"], build_operator(n, case["objective"]), alpha=alpha, initial_state_circuit=init)
-        table = [float(Fraction(x)) for x in case["objective"]["table"]]
-        return BitstringCircuitEvaluator(prim, case["shots"], BitstringEvaluator(n, lambda b: table[int(b, 2)]), alpha=alpha, initial_state_circuit=init)
+        c = cfg(case, ci)
+        if c["kind"] == "est":
+            return OperatorCircuitEvaluator(prim, 0.0, build_operator(n, c["objective"]), initial_state_circuit=init)
+        alpha = float(Fraction(c["alpha"]))
+        if c["kind"] == "opsampler":
+            return OperatorSamplerCircuitEvaluator(prim, c["shots"], build_operator(n, c["objective"]), alpha=alpha, initial_state_circuit=init)
+        table = [float(Fraction(x)) for x in c["objective"]["table"]]
+        return BitstringCircuitEvaluator(prim, c["shots"], BitstringEvaluator(n, lambda b: table[int(b, 2)]), alpha=alpha, initial_state_circuit=init)
 
     barrier = threading.Barrier(len(case["callers"]))
 
@@ -394,6 +434,7 @@ def run_impl(case, timeout=90.0):
             cl = case["callers"][ci]
             circuits = [build_circuit(n, g, npar, name=f"c{ci}_{i}", metadata={"caller": ci}) for i, g in enumerate(cl["circuits"])]
             values = [angle_values(case, p) for p in cl["params"]]
+            thread_of[ci] = threading.get_ident()
             barrier.wait(timeout=30)
             out = ev.evaluate_circuits(circuits, values)
             results[ci] = [float(x) for x in out]
@@ -411,7 +452,9 @@ def run_impl(case, timeout=90.0):
         for ci, t in enumerate(ths):
             if t.is_alive():
                 results[ci] = ("EXC", "Hang", f"evaluate_circuits did not return within {timeout}s")
-    return results, batches
+    ce_module.measure_quasi_distributions.sink = None
+    extra = {"pub_shots": pub_shots, "quasi_sums": {ci: quasi_sums.get(t, []) for ci, t in thread_of.items()}}
+    return results, batches, extra
 
 
 # ----------------------------------------------------------------------------------------------- oracle
@@ -419,7 +462,9 @@ def oracle_values(case, ci):
     """Exact objective of every (circuit, parameters) of caller ci, with the tolerance the comparison may use."""
     from qiskit.quantum_info import Statevector
 
-    n, npar, kind = case["n"], case["n_params"], case["kind"]
+    n, npar = case["n"], case["n_params"]
+    c = cfg(case, ci)
+    kind, objective = c["kind"], c["objective"]
     cl = case["callers"][ci]
     init = build_circuit(n, case["init"], 0) if case["init"] is not None else None
     out = []
@@ -428,13 +473,13 @@ def oracle_values(case, ci):
         full = init.compose(qc) if init is not None else qc
         sv = Statevector(full)
         if kind == "est":
-            op = build_operator(n, case["objective"])
+            op = build_operator(n, objective)
             v = float(sv.expectation_value(op).real)
-            scale = sum(abs(Fraction(c)) for c, _ in case["objective"]["op"])
+            scale = sum(abs(Fraction(c)) for c, _ in objective["op"])
             out.append((v, 1e-9 * max(1.0, float(scale))))
             continue
         probs = sv.probabilities_dict()
-        alpha = Fraction(case["alpha"])
+        alpha = Fraction(c["alpha"])
         if case["family"] == "classical":
             fr = {}
             for k, p in probs.items():
@@ -447,10 +492,10 @@ def oracle_values(case, ci):
         tot = sum(fr.values())
         fr = {k: p / tot for k, p in fr.items()}
         if kind == "opsampler":
-            vals = {k: diag_value(case["objective"]["op"], k) for k in fr}
-            V = float(sum(abs(Fraction(c)) for c, _ in case["objective"]["op"]))
+            vals = {k: diag_value(objective["op"], k) for k in fr}
+            V = float(sum(abs(Fraction(c)) for c, _ in objective["op"]))
         else:
-            table = [Fraction(x) for x in case["objective"]["table"]]
+            table = [Fraction(x) for x in objective["table"]]
             vals = {k: table[int(k, 2)] for k in fr}
             V = float(max(abs(x) for x in table))
         v = float(cvar([(vals[k], fr[k]) for k in fr], alpha))
@@ -460,7 +505,7 @@ def oracle_values(case, ci):
         else:
             tol = C14_SLACK * 2 * V / float(alpha) + 1e-9 * V
             if case["sampler_mode"] == "integer":  # every probability is off by < 1/shots
-                tol += 2 * V * (2 ** n) / case["shots"] / float(alpha)
+                tol += 2 * V * (2 ** n) / c["shots"] / float(alpha)
         out.append((v, tol))
     return out
 
@@ -509,7 +554,12 @@ def g_case(case, ci, batches, expected, legacy=False):
     """Gallina literal of caller ci's call.  `batches`: what the raw primitive saw (to place the caller in its batch)."""
     n = case["n"]
     cl = case["callers"][ci]
-    obs0 = g_obs(case["objective"]["op"]) if "op" in case["objective"] else "[]"
+    me = cfg(case, ci)
+
+    def g_obs_of(c):
+        return g_obs(c["objective"]["op"]) if "op" in c["objective"] else "[]"
+
+    obs0 = g_obs_of(me)
     layers = []
     for layer in case["stack"]:
         if layer["w"] == "mutex":
@@ -531,16 +581,17 @@ def g_case(case, ci, batches, expected, legacy=False):
                 for c, i in entries:
                     oc = case["callers"][c]
                     gates = (case["init"] or []) + oc["circuits"][i]
-                    out.append(g_pair(g_circ(n, gates), obs0, g_params(oc["params"][i])))
+                    occ = cfg(case, c)
+                    out.append(g_pair(g_circ(n, gates), g_obs_of(occ), g_params(oc["params"][i]), g_z(occ["shots"] or 0)))
                 return g_list(out)
 
             layers.append(f"LBatch {pubs(before)} {pubs(after)}")
-    if case["kind"] == "est":
+    if me["kind"] == "est":
         kind = f"KEst {obs0}"
-    elif case["kind"] == "opsampler":
-        kind = f"KOpSampler {obs0} {g_q(Fraction(case['alpha']))} {g_z(case['shots'])}"
+    elif me["kind"] == "opsampler":
+        kind = f"KOpSampler {obs0} {g_q(Fraction(me['alpha']))} {g_z(me['shots'])}"
     else:
-        kind = f"KBits {g_list(g_q(Fraction(x)) for x in case['objective']['table'])} {g_q(Fraction(case['alpha']))} {g_z(case['shots'])}"
+        kind = f"KBits {g_list(g_q(Fraction(x)) for x in me['objective']['table'])} {g_q(Fraction(me['alpha']))} {g_z(me['shots'])}"
     init = g_opt(g_circ(n, case["init"]) if case["init"] is not None else None)
     exp = f"(Ok {g_list(g_q(x) for x in expected)})" if not (isinstance(expected, tuple)) else f'(Err "{expected[1]}"%string)'
     return (f"mkcase ({kind}) {init} {g_list(g_circ(n, g) for g in cl['circuits'])} {g_list(g_params(p) for p in cl['params'])} "
@@ -557,7 +608,8 @@ def describe(case, ci=None, pos=None):
         if pos is not None and pos < len(cl["circuits"]):
             d["replay_summary"] = {
                 "circuit": cl["circuits"][pos], "params": cl["params"][pos], "params_unit": "pi" if case["family"] == "classical" else "rad",
-                "initial_state": case["init"], "observable_or_function": case["objective"], "alpha": case.get("alpha"),
+                "initial_state": case["init"], "observable_or_function": cfg(case, ci)["objective"], "alpha": cfg(case, ci).get("alpha"),
+                "evaluator": cfg(case, ci)["kind"], "shots": cfg(case, ci).get("shots"), "shots_of_all_callers": [cfg(case, k).get("shots") for k in range(len(case["callers"]))],
                 "layout": [l["pm"] for l in case["stack"] if l["w"] == "transpile"], "stack": case["stack_name"],
             }
     return d
@@ -566,13 +618,31 @@ def describe(case, ci=None, pos=None):
 def do_case(ctx, case, want_gallina=True):
     """Runs the implementation and the oracle; returns the Gallina literals [(caller, literal)] for classical cases."""
     try:
-        results, batches = run_impl(case)
+        results, batches, extra = run_impl(case)
     except Exception as e:
         ctx.violation("oracle", f"{case['kind']}:{case['stack_name']}:setup-{type(e).__name__}", f"building the wrapped evaluator raised {type(e).__name__}: {e}", describe(case))
         return []
     lits = []
+    # every pub the raw sampler receives carries the shots of the evaluator that submitted it
+    for c, sh in extra["pub_shots"]:
+        if c is not None and c < len(case["callers"]) and sh != cfg(case, c)["shots"]:
+            ctx.violation("oracle", f"sampler:{case['stack_name']}:pub-shots",
+                          f"through {case['stack_name']} the raw sampler received a pub of caller {c} with shots={sh}, the evaluator asked for {cfg(case, c)['shots']} "
+                          f"(callers' shots: {[cfg(case, k)['shots'] for k in range(len(case['callers']))]}): the counts are divided by the wrong shot number",
+                          describe(case, c, 0), detail={"pub_shots_seen_by_raw_sampler": extra["pub_shots"]})
+            break
+    # the quasi-distribution every evaluator aggregates is normalised (exactly with the exact sampler)
+    for c, sums in extra["quasi_sums"].items():
+        tol = 0.0 if case.get("sampler_mode") == "integer" else 1e-9
+        bad = [x for x in sums if abs(x - 1.0) > tol]
+        if bad:
+            ctx.violation("oracle", f"sampler:{case['stack_name']}:quasi-not-normalised",
+                          f"through {case['stack_name']} the distribution caller {c} aggregates sums to {bad[0]!r}, not 1 (shots requested {cfg(case, c)['shots']}; "
+                          f"callers' shots: {[cfg(case, k)['shots'] for k in range(len(case['callers']))]})", describe(case, c, 0), detail={"sums": sums})
+            break
     for ci, res in enumerate(results):
         cl = case["callers"][ci]
+        kind_ci = cfg(case, ci)["kind"]
         if isinstance(res, tuple):
             key = f"{case['kind']}:{case['stack_name']}:{res[1]}"
             if res[1] == "AttributeError" and "'SamplerPub' object" in res[2]:
@@ -588,8 +658,8 @@ def do_case(ctx, case, want_gallina=True):
             continue
         for pos, (got, (w, tol)) in enumerate(zip(res, want)):
             if not (abs(got - w) <= tol):
-                ctx.violation("oracle", f"{case['kind']}:{case['stack_name']}:value",
-                              f"{case['kind']} evaluator through {case['stack_name']} returned {got!r}, the objective of the prepared state is {w!r} (tolerance {tol:.3g})",
+                ctx.violation("oracle", f"{kind_ci}:{case['stack_name']}:value",
+                              f"{kind_ci} evaluator through {case['stack_name']} returned {got!r}, the objective of the prepared state is {w!r} (tolerance {tol:.3g})",
                               describe(case, ci, pos), detail={"returned": res, "objective": [x for x, _ in want], "batches_seen_by_raw_primitive": batches})
                 break
         if want_gallina and case["family"] == "classical":
@@ -710,6 +780,11 @@ def run(ctx):
         ctx.tally(f"{case['family']}:{case['kind']}:{case['stack_name']}")
         ctx.tally(f"callers:{len(case['callers'])}")
         ctx.tally("init:" + ("yes" if case["init"] is not None else "no"))
+        shots_set = {cfg(case, k).get("shots") for k in range(len(case["callers"]))}
+        if len(case["callers"]) > 1 and case["kind"] != "est":
+            ctx.tally("multi-caller-sampler:" + ("different-shots-per-caller" if len(shots_set) > 1 else "same-shots"))
+            if len({cfg(case, k)["kind"] for k in range(len(case["callers"]))}) > 1:
+                ctx.tally("multi-caller-sampler:mixed-evaluator-kinds")
         if "alpha" in case:
             ctx.tally("alpha:" + case["alpha"])
         if "op" in case["objective"]:
